@@ -502,4 +502,19 @@ theorem moved_effect {s s' : State} {g : Ghost} (H : HInv s g) {lo hg : Option N
   · simp only [if_true]
     rw [eH]; exact sideOK_abs H.keysO sH hb
 
+/-- after the forwarding only the nodes of the new chains are live -/
+theorem live_of_moved {s s' : State} {cr : CR} (hh : s'.heap = s.heap) (h0 : s'.cell0 = .moved)
+    (hL : s'.lowCell = s.lowCell) (hH : s'.highCell = s.highCell) {j : Nat} (hl : Live s' cr j) :
+    j ∈ chL s ∨ j ∈ chH s := by
+  unfold Live at hl
+  have e0 : chO s' = [] := by unfold chO; rw [h0]; exact chainH_moved _
+  have eL : chL s' = chL s := by unfold chL; rw [hh, hL]
+  have eH : chH s' = chH s := by unfold chH; rw [hh, hH]
+  rw [e0, eL, eH] at hl
+  rcases hl with hl | hl | hl | ⟨hl, _⟩
+  · cases hl
+  · exact Or.inl hl
+  · exact Or.inr hl
+  · exact absurd h0 hl
+
 end Flurry.Proto.BinX
